@@ -1548,3 +1548,49 @@ pub mod c01math {
     /// not an extreme: a threshold count
     pub fn count_above(v: &[f64], t: f64) -> usize { let mut c = 0; for x in v { if *x > t { c += 1; } } c }
 }
+
+/// C17 R11 controls: handles kept in a collection the host filled are freed once each.
+pub mod c17loopfree {
+    pub struct H(pub u64);
+
+    /// the same handle stored twice is freed twice
+    pub fn bad_drain(handles: Vec<*mut H>) -> u64 {
+        let mut sum = 0;
+        for h in handles {
+            if !h.is_null() {
+                sum += unsafe { &*h }.0;
+                unsafe { drop(Box::from_raw(h)) };
+            }
+        }
+        sum
+    }
+
+    /// read first, free each distinct pointer once afterwards
+    pub fn good_drain(handles: Vec<*mut H>) -> u64 {
+        let mut sum = 0;
+        let mut seen: Vec<*mut H> = Vec::new();
+        for h in handles {
+            if !h.is_null() {
+                sum += unsafe { &*h }.0;
+                if !seen.contains(&h) {
+                    seen.push(h);
+                }
+            }
+        }
+        for h in seen {
+            unsafe { drop(Box::from_raw(h)) };
+        }
+        sum
+    }
+
+    /// the collection is built here from fresh boxes: distinct by construction
+    pub fn good_fresh(vals: &[u64]) -> u64 {
+        let hs: Vec<*mut H> = vals.iter().map(|v| Box::into_raw(Box::new(H(*v)))).collect();
+        let mut sum = 0;
+        for h in hs {
+            sum += unsafe { &*h }.0;
+            unsafe { drop(Box::from_raw(h)) };
+        }
+        sum
+    }
+}
